@@ -1,10 +1,12 @@
 import XdsVerif.Driver.Util
+import XdsVerif.Driver.C08
 import XdsVerif.Driver.C09
 import XdsVerif.Driver.C14
 open Lean XdsVerif.Driver
 
 def dispatch (p : String) (j : Json) : Except String Verdict :=
   match p with
+  | "C08" => C08.check j
   | "C09" => C09.check j
   | "C14" => C14.check j
   | _ => .error s!"no driver for property {p}"
